@@ -291,7 +291,12 @@ type inlineState struct {
 
 func (state *inlineState) spanEnd() int {
 	if state.unparsedPos >= len(state.unparsed) {
-		return len(state.source)
+		// Past the last node: nothing is left to tokenize.
+		// (The end of the root block's source would reach into sibling blocks.)
+		if len(state.unparsed) == 0 {
+			return 0
+		}
+		return state.unparsed[len(state.unparsed)-1].Span().End
 	}
 	return state.unparsed[state.unparsedPos].Span().End
 }
